@@ -120,7 +120,7 @@ def build_array(cfg):
     elif via == "kw-over-attrs":
         attrs = {"nodata": 1}  # the keyword has to win over the attribute
     else:
-        attrs = {"nodata": cfg["nodata"]}
+        attrs = {"nodata": cfg["nodata"]}  # (write_cog documents attrs['nodata'] as its only source; the CF `_FillValue` spelling is exercised where the code reads .odc.nodata: C05)
     # memory layout of what is handed over (values identical): the oracle keeps its own contiguous copy
     handed = gen.array_form(data.copy(), cfg.get("array_form", "plain"))
     xx = xr.DataArray(handed, dims=dims, coords=xr_coords(gb), attrs=attrs)
